@@ -67,3 +67,11 @@ package fx
 //@   call buildOptions#0: assert sameSlice(arg_opts, opts)
 //@   call walkUnlimited#*: assert o.unlimitedWorkers && arg_option == o && arg_recv == s
 //@   call walkLimited#*: assert !o.unlimitedWorkers && arg_option == o && arg_recv == s
+
+// Filter, Map and Parallel are Walk with the caller's options (the worker cap included) - none of them drops the options
+//@ func (s Stream) Filter
+//@   property C05
+//@   call Walk#0: assert sameSlice(arg_opts, opts) && arg_recv == s
+//@ func (s Stream) Map
+//@   property C05
+//@   call Walk#0: assert sameSlice(arg_opts, opts) && arg_recv == s
